@@ -918,6 +918,66 @@ pub fn multi_cells(w: &mut RWorld, n0: u64, rep: &mut Report) -> Vec<Fail> {
 }
 
 
+/// Long message lists: one contract response (and one execute_multi batch) carrying 257 to 300 messages of one kind —
+/// every one of them reaches its module, in order, exactly once (accepting configuration of that module only).
+pub fn bulk_cells(w: &mut RWorld, n0: u64, rep: &mut Report) -> Vec<Fail> {
+    let mut fails = vec![];
+    let to = w.puppets[2].clone();
+    let user = w.user.clone();
+    let kinds = [Kind::Custom, Kind::Staking, Kind::Gov, Kind::Any, Kind::Distribution, Kind::Ibc, Kind::Stargate];
+    let k = kinds[(n0 as usize) % kinds.len()];
+    if w.hub.fails(module_of(k)) {
+        return fails;
+    }
+    let count = 257 + (n0 % 44);
+    let msgs: Vec<CosmosMsg<PMsg>> = (0..count).map(|i| make_msg(k, n0 * 1000 + i, &to)).collect();
+    let want: Vec<(String, String)> = msgs.iter().map(|m| (module_of(k).to_string(), expected_payload(m))).collect();
+    for via_contract in [false, true] {
+        if via_contract && (k == Kind::Custom) && false {
+            continue;
+        }
+        w.hub.log.borrow_mut().clear();
+        let emitter = w.puppets[0].clone();
+        let res = if via_contract {
+            let subs: Vec<Sub> = msgs.iter().enumerate().map(|(i, m)| Sub { id: i as u64, mode: RMode::Never, payload: Payload::Raw(Binary::default()), msg: Msg::Opaque(m.clone()) }).collect();
+            let script = Script { tag: 880_000 + (n0 % 1000) as u32, msgs: subs, ..Default::default() };
+            let top = Msg::Exec { addr: emitter.clone(), script: Box::new(script), funds: vec![] };
+            catch(|| w.app.execute(Addr::unchecked(user.clone()), to_cosmos::<PMsg>(&top)).map(|_| ()).map_err(|e| format!("{:#}", e)))
+        } else {
+            catch(|| w.app.execute_multi(Addr::unchecked(user.clone()), msgs.clone()).map(|_| ()).map_err(|e| format!("{:#}", e)))
+        };
+        let _ = take_trace();
+        rep.evaluations += 1;
+        rep.bump(&format!("c17/bulk/{}", if via_contract { "one-response-with-over-256-messages" } else { "one-batch-with-over-256-messages" }));
+        let ctx = format!("{} {:?} messages {}", count, k, if via_contract { "in one contract response" } else { "in one execute_multi batch" });
+        match res {
+            Err(p) => {
+                fails.push(("panic-routing-batch".into(), format!("{}: {}", ctx, p)));
+                continue;
+            }
+            Ok(Err(e)) => {
+                fails.push(("caller-sees-failure-although-module-accepted".into(), format!("{}: {}", ctx, e)));
+                continue;
+            }
+            Ok(Ok(())) => {}
+        }
+        // (the carrier message to the emitting contract is logged by the recording wasm module: not one of the messages)
+        let got: Vec<(String, String)> = w.hub.log.borrow().iter().filter(|e| e.kind == "exec" && e.module != "wasm").map(|e| (e.module.to_string(), e.payload.clone())).collect();
+        rep.add("c17/log_entries_checked", got.len() as u64);
+        if got != want {
+            let first = got.iter().zip(want.iter()).position(|(a, b)| a != b).unwrap_or(got.len().min(want.len()));
+            fails.push(("message-not-delivered-intact".into(), format!("{}: the module saw {} messages, expected {} (first difference at #{})", ctx, got.len(), want.len(), first)));
+            continue;
+        }
+        let sender = if via_contract { emitter.clone() } else { user.clone() };
+        if w.hub.log.borrow().iter().any(|e| e.kind == "exec" && e.module != "wasm" && e.sender.as_deref() != Some(sender.as_str())) {
+            fails.push(("module-told-another-sender".into(), ctx));
+        }
+    }
+    fails
+}
+
+
 // --- a chain whose custom message and query types are `Empty` (the default of AppBuilder::new) ---------------------
 
 fn ec_instantiate(_d: cosmwasm_std::DepsMut, _e: cosmwasm_std::Env, _i: cosmwasm_std::MessageInfo, _m: Empty) -> cosmwasm_std::StdResult<cosmwasm_std::Response> {
